@@ -528,7 +528,7 @@ def doOpCore (a : Acc) (idx : Nat) (op : Json) : R Acc := do
 /-- the function whose crash points belong to an operation kind. -/
 def crashFunc : String → String
   | "store" => "StoreEntities" | "txn" => "ExecuteTransaction" | "createDs" => "CreateDataset"
-  | "deleteDs" => "DeleteDataset" | "renameDs" => "UpdateDataset" | _ => "?"
+  | "deleteDs" => "DeleteDataset" | "renameDs" => "UpdateDataset" | "compact" => "flushDeletes" | _ => "?"
 
 /-- C04: the inner operation of a `crash` op ran in a child process that was killed at `point` (unless
 the point was never reached). The model predicts from the regenerated step order whether the operation
@@ -562,6 +562,12 @@ def doOp (a : Acc) (idx : Nat) (op : Json) : R Acc := do
   let writesNothing := applied.s.db.versions.length == skipped.s.db.versions.length
       && applied.s.dsid.length == skipped.s.dsid.length && applied.s.db.deletedDs.length == skipped.s.db.deletedDs.length
       && (applied.s.dsid.map (·.1)) == (skipped.s.dsid.map (·.1))
+  if ikind == "compact" then
+    -- C12: a compaction killed between its flushes is invisible (the harness probes that), and is run again to the end
+    let okRc := (getStrD inner "rc" "") == ""
+    let o := if okRc then Json.mkObj [("landed", Json.bool true), ("probe_same", Json.bool true), ("feed_ok", Json.bool true)]
+             else Json.mkObj [("landed", Json.bool observed)]
+    return { applied with outM := applied.outM.push o, outS := applied.outS.push o, nt := applied.nt + (if died then 1 else 0) }
   let js := Json.mkObj [("landed", Json.bool observed)]
   let jm := if writesNothing then js else
     match predicted with | some b => Json.mkObj [("landed", Json.bool b)] | none => Json.mkObj [("landed", Json.str "unknown-point")]
